@@ -124,21 +124,21 @@ CLAIMS = {
 EXTRA = {
     "C01": "Composition (Props/C01Compose): c01_storage / c01_storage_hash state the same FROM THE BYTES of the lists (scanner model + parser model + storage indexes + engine), with RetrievalOK discharged by C11 and DomainsWF/TextDeterminesRule by the parser model; i1.chain checks that chain against the real RuleStorage+NetworkEngine.",
     "C02": "Top level (Props/C02Top): c02_top* state the whole DNS answer incl. DNSRewrites() from list bytes and DNS request fields through the pooled request. Composition (Props/C02Compose): c02_basic discharges BasicRespectsTexts for the modelled GetDNSBasicRule (C06/C07), c02_storage states C02 from list bytes; i1.dnschain runs the chain against the real DNSEngine.",
-    "C03": "Composition (Props/C03Full): c03_full for the pattern model used as Ext.pat, c03_models_agree (the two independent models of preparePattern for /regex/ patterns coincide).",
-    "C04": "Text-level reference (Props/C04Text, group L): an independent modifier grammar as data, grammar-level lemmas for all modifier families and c04_text_ref: Match of the parsed rule = specMatchText of the STRUCTURED modifiers (never the parser); l.textref renders texts in Go and compares. Composition (Props/C04Full): c04_full / c04_full_end_to_end replace the pattern oracle by the proved mask/regex model (modelPat) -- from the rule TEXT, Match = reference with the documented mask language; i2.match / i2.textmatch evaluate the whole of Match and NewNetworkRule in the model with only psl/netip tables from Go.",
-    "C05": "Composition (Props/C05Full): c05_mask_full discharges the compiled-expression hypothesis from C03's maskAst; c05_regex_text proves the MODELLED findRegexpShortcut (text heuristics + required literals of Go's parse tree) sound; i2.reshortcut compares it with the real function.",
+    "C03": "Composition (Props/C03Full): c03_full for the pattern model used as Ext.pat, c03_models_agree (the two independent models of preparePattern for /regex/ patterns coincide). Regexp quirk (Props/C03Quirk): mask expressions contain no fold-flag hazard, so Go's flag-blind alternation factoring (modelled in Model/RegexQuirk) is the identity on them.",
+    "C04": "Text-level reference (Props/C04Text, group L): an independent modifier grammar as data, grammar-level lemmas for all modifier families and c04_text_ref: Match of the parsed rule = specMatchText of the STRUCTURED modifiers (never the parser); l.textref renders texts in Go and compares. Composition (Props/C04Full): c04_full / c04_full_end_to_end replace the pattern oracle by the proved mask/regex model (modelPat) -- from the rule TEXT, Match = reference with the documented mask language; i2.match / i2.textmatch evaluate the whole of Match and NewNetworkRule in the model with only psl/netip tables from Go. Order (Props/C04Perm): c04_spec_perm / c04_text_ref_perm -- permuting modifiers and values never changes the match (side condition: each value-carrying modifier at most once; c04_perm_once_needed shows it is needed). Wider grammar (Props/C04Wide): quoted client names, ~extension, /-patterns. Regex rules (Props/C04Quirk): Match = modifiers and search of the tree Go really compiles (goTree of the written tree).",
+    "C05": "Composition (Props/C05Full): c05_mask_full discharges the compiled-expression hypothesis from C03's maskAst; c05_regex_text proves the MODELLED findRegexpShortcut (text heuristics + required literals of Go's parse tree) sound; i2.reshortcut compares it with the real function. Regexp quirk (Props/C05Quirk): parseRE answers the written tree up to the fold flags Go's regexp/syntax.factor assigns (modelled), c05_required_any_flags: required literals stay factors of every lower-cased match under any flag assignment.",
     "C10": "Composition (Props/C10Full): the shape theorem for the rewrite stored by the complete NewRule model.",
     "C11": "Composition (Props/C11Compose): c11_real instantiates the parser parameter with the modelled rules.NewRule (TrimsFirst proved); i1.scan checks the scanner chain.",
     "C12": "Engine level (Props/C12Engine, group K): inserting blank/comment/rejected lines or switching LF to CRLF in the list BYTES leaves MatchAll texts, the DNS result and the cosmetic selectors unchanged. Composition (Props/C12Full): the complete NewRule model (TrimSpace of C11, NewHostRule of C18, loadDNSRewrite of C10, regex shortcut model) with c12_outcomes_full / c12_inert_full free of parameter assumptions; i2.newrule compares whole parsed records with rules.NewRule.",
     "C15": "Composition (Props/C15Compose): CosDomainsWF discharged from the cosmetic parser model, c15_storage from list bytes, i1.coschain against the real engine.",
-    "C13": "Engine level (Props/C13Engine, group J): the machine's environment is instantiated with the engine models built from list bytes (c13_pure_is_engine: its stateless answer IS Engine.matchAll / DnsEngine.matchRequest), so c13_engine* speak about the engines; the preparePattern state is a per-object cell in the machine (c13_cell_is_function_of_rule).",
-    "C14": "Engine level (Props/C14Engine): c14_engine* for every schedule over the engine-instantiated machine with the compile cells and the unlocked f.regex read as a separate action; ownership facts c14_fact_no_query_writes / c14_fact_writers_constructor_only (go/ast: no query path writes engine, lookup-table or storage fields other than the cache).",
-    "C19": "Engine level (Props/C19Engine): the machine has an explicit crash outcome; c19_nopanic says no schedule of queries and close events reaches it, and c19_nil_check_needed exhibits for each table a schedule that crashes once its nil check is removed; c19_engine* on the engine-instantiated machine.",
-    "C07": "Text level (Props/C07Text, group L): appending a modifier to the rule TEXT ranks strictly higher for every modifier family, with the document-only exception characterised exactly (c07_text_doconly_iff).",
+    "C13": "Engine level (Props/C13Engine, group J): the machine's environment is instantiated with the engine models built from list bytes (c13_pure_is_engine: its stateless answer IS Engine.matchAll / DnsEngine.matchRequest), so c13_engine* speak about the engines; the preparePattern state is a per-object cell in the machine (c13_cell_is_function_of_rule). Query kinds (Props/C13Queries): the machine also runs Engine.MatchRequest and cosmetic queries; c13_queries / c13_matchRequest_top / c13_cosmetic_top / c13_two_engines.",
+    "C14": "Engine level (Props/C14Engine): c14_engine* for every schedule over the engine-instantiated machine with the compile cells and the unlocked f.regex read as a separate action; ownership facts c14_fact_no_query_writes / c14_fact_writers_constructor_only (go/ast: no query path writes engine, lookup-table or storage fields other than the cache). Section facts (Props/C14Sections): typed extraction of every critical section with its ordered accesses; check-then-act pairs of the model lie in ONE section, every access to guarded state anywhere is locked or one of five listed deliberate ones, no query path in any package writes a frozen struct field or a package-level variable.",
+    "C19": "Engine level (Props/C19Engine): the machine has an explicit crash outcome; c19_nopanic says no schedule of queries and close events reaches it, and c19_nil_check_needed exhibits for each table a schedule that crashes once its nil check is removed; c19_engine* on the engine-instantiated machine. Composed (Props/C19Composed): c19_composed -- one statement for any history with close events: no crash, answers are sublists of the fault-free answers, everything cached before the fault is still returned; c19_composed_concurrent (membership; an order witness shows sublist fails under concurrency).",
+    "C07": "Text level (Props/C07Text, group L): appending a modifier to the rule TEXT ranks strictly higher for every modifier family, with the document-only exception characterised exactly (c07_text_doconly_iff). Exact (Props/C07TextExact): c07_text_key (priority of any two texts = comparison of keys computed from the modifiers as written), c07_text_document_iff (threshold of six permitted types), ~extension, repeats, re-written list modifiers, one more value.",
     "C08": "Engine level (Props/C08Engine/C08Order/C08Text): twins match the same requests, c08_storage* from list bytes (verdict, DNS result and rewrites unchanged by inserting a rule with its twin anywhere), value-order lemmas.",
     "C09": "Text level (Props/C09Text): the disabling relation written from the property text, proved equal to the implementation's relation; the naive literal reading refuted by a checked example.",
-    "C06": "Top level (Props/C06Top, group I3): c06_top states the verdict class of the modelled Engine.MatchRequest from list bytes and URL strings; i3.web runs that chain against the real engine.",
-    "C16": "Top level (Props/C16Top): c16_text (from the rule TEXT through the parser model), c16_top / c16_top_cosmetic from raw inputs.",
+    "C06": "Top level (Props/C06Top, group I3): c06_top states the verdict class of the modelled Engine.MatchRequest from list bytes and URL strings; i3.web runs that chain against the real engine. More (Props/C06TopMore): c06_top_netmatch* (NetworkEngine.Match), c06_top_document, c06_top_lines_set / _perm_lines / _resplit / _regroup: the verdict class depends only on the set of accepted lines.",
+    "C16": "Top level (Props/C16Top): c16_text (from the rule TEXT through the parser model), c16_top / c16_top_cosmetic from raw inputs. Raw (Props/C16TopRaw): c16_top_raw -- from list bytes and URLs exactly one of three cases, with the three bit equivalences.",
     "C17": "Top level (Props/C17Top): the request and referrer request built inside Engine.MatchRequest equal the reference request.",
     "C18": "Composition (Props/C18Full): NewRule's dispatch for hosts lines with the modelled IsDomainName (no Go table).",
 }
